@@ -89,6 +89,8 @@ func nearDupPerturbations() []perturbation {
 	add("additional property set", obj(sgen.M{"t": str(nil)}, nil), obj(sgen.M{"t": str(nil), "u": sgen.M{"type": "integer"}}, nil), M{"t": "x"}, M{"t": "x", "u": 1}, M{"t": "x", "u": "s"})
 	add("nullable", obj(sgen.M{"t": sgen.M{"type": "integer"}}, sgen.M{"required": []any{"t"}}), obj(sgen.M{"t": sgen.M{"type": []any{"integer", "null"}}}, sgen.M{"required": []any{"t"}}), M{"t": 1}, M{"t": nil})
 	add("description only (annotation)", obj(sgen.M{"t": str(sgen.M{"minLength": 2})}, sgen.M{"description": "first"}), obj(sgen.M{"t": str(sgen.M{"minLength": 2})}, sgen.M{"description": "second"}), M{"t": "ab"}, M{"t": "a"})
+	add("identical typed integer enum", obj(sgen.M{"t": sgen.M{"type": "integer", "enum": []any{1, 2, 3}}}, nil), obj(sgen.M{"t": sgen.M{"type": "integer", "enum": []any{1, 2, 3}}}, nil), M{"t": 2}, M{"t": 4})
+	add("identical typed string enum", obj(sgen.M{"t": sgen.M{"type": "string", "enum": []any{"a", "b"}}}, nil), obj(sgen.M{"t": sgen.M{"type": "string", "enum": []any{"a", "b"}}}, nil), M{"t": "a"}, M{"t": "c"})
 	add("identical", obj(sgen.M{"t": str(sgen.M{"minLength": 2})}, nil), obj(sgen.M{"t": str(sgen.M{"minLength": 2})}, nil), M{"t": "ab"}, M{"t": "a"})
 	return ps
 }
